@@ -41,6 +41,9 @@ type Info struct {
 	// RLowFree: interrupt acknowledge by push (NMI, IM 1, IM 2): the low seven bits of R may or may not
 	// count the acknowledge cycle; bit 7 and I must be kept
 	RLowFree bool
+	// Optional: an undocumented encoding the pinned tree does not support. A tree may consume it as an unsupported
+	// opcode (recognised by what the Step does, with or without a log line) or execute it as the Z80 does.
+	Optional bool
 }
 
 const (
@@ -796,6 +799,7 @@ func (m *mach) execED() {
 			// RETI). A tree need not support them, but one that does must not take them for RETI.
 			m.in.Class = "RETN"
 			m.in.Documented = false
+			m.in.Optional = true
 			m.in.RetN++
 			s.PC = m.pop()
 			s.IFF1 = s.IFF2
